@@ -13,14 +13,16 @@ import DepLogic.Proofs.FromSpec
 
   The theorems take `FromSpecOk` (from_specifier renders a specifier as an atom that means it) and
   `PyMergeOk` (python_version / python_full_version merge) as parameters; both are THEOREMS
-  (Proofs/FromSpec.lean: `fromSpecOk_of_lex`, `pyMergeOk_of_fromSpec`) given only two
-  character-level facts — `LexPrintOk` (the operand text from_specifier writes is read back as the
-  clause it was written from) and `LexNormOk` (the string surgery of
-  `_normalize_python_version_specifier` computes the structured normalisation) — so the `*_lex`
-  theorems at the end of this file state C02 with no other assumption than those, an environment
+  (Proofs/FromSpec.lean: `fromSpecOk_of_lex`, `pyMergeOk_of_fromSpec`).  That the operand text
+  from_specifier writes is read back as the clause it was written from is proved down to characters
+  (`lexPrint_final`, Proofs/LexLemmas.lean: `int(str(n)) = n`, `Version(".".join(...))`, operator
+  and `.*` lexing); the one character-level fact still assumed is `LexNormOk` (the string surgery of
+  `_normalize_python_version_specifier` computes the structured normalisation).  So the `*_lex`
+  theorems at the end of this file state C02 with no other assumption than that, an environment
   that binds its variables PEP 508-style (`EnvTotal`), and atoms of the well-defined classes
-  (`Good`).  The restriction to specifiers without post-release bounds (`C06.Nice`, inside
-  `Good`) is forced: without it the property is false of the code (known finding D4a).
+  (`Good`).  The restriction to specifier views over plain final releases (`C06.Nice`, inside
+  `Good`) is forced in one respect: with post-release bounds the property is false of the code
+  (known finding D4a).
 -/
 namespace DepLogic
 namespace C02
@@ -59,13 +61,12 @@ theorem rewriting_sound (env : Env) (he : EnvTotal env) (hF : FromSpecOk env) (h
 
 /-! ### with the bridge hypotheses discharged -/
 
-/-- the two character-level assumptions -/
+/-- the one character-level assumption left -/
 structure Lex : Prop where
-  print : LexPrintOk
   norm : LexNormOk
 
 theorem bridge (env : Env) (he : EnvTotal env) (hx : Lex) : FromSpecOk env ∧ PyMergeOk env :=
-  let hF := fromSpecOk_of_lex env he hx.print hx.norm
+  let hF := fromSpecOk_of_lex env he hx.norm
   ⟨hF, pyMergeOk_of_fromSpec env he hF⟩
 
 theorem and_sound_lex (env : Env) (he : EnvTotal env) (hx : Lex) (fuel : Nat) (a b : M)
@@ -143,7 +144,7 @@ theorem atomFull_good : GoodAtom env0 atomFull := by
   refine ⟨by unfold Atom.Coherent; decide, ⟨by decide, ?_, ?_⟩, fun h => absurd h (by decide), fun h => absurd h (by decide)⟩
   · exact Spec.fromClause_textInv ⟨.ge, { release := [3, 8, 1] }, false⟩ _ (by simp [fromClause])
   · apply Spec.boundsIn_of_allVers
-    simp [Spec.AllVers, Range.AllVers, atomFull, Spec.NoPost]
+    simp [Spec.AllVers, Range.AllVers, atomFull, Spec.FinalV, Ver.isFinal]
 
 /-- one instance of each character-level assumption, evaluated in the kernel -/
 example : SpecParse.parseAltsText ((MOp.ofCOp .ge).str ++ fsText "python_full_version" ⟨.ge, { release := [3, 8] }, false⟩)
